@@ -180,8 +180,11 @@ class IMAPConnection:
                 lit_plus = self._literal_plus.search(buf)
             else:
                 lit_plus = None
-            if lit_plus:
-                literal_length = int(lit_plus.group(1))
+            try:
+                literal_length = int(lit_plus.group(1)) if lit_plus else None
+            except ValueError:
+                literal_length = None  # left to the parser to refuse
+            if literal_length is not None:
                 buf += await self.reader.readexactly(literal_length)
                 buf += await self.reader.readline()
             else:
